@@ -201,6 +201,13 @@ pub fn run_writer(cfg: WCfg, end: WEnd, ops: &[WOp]) -> Result<WDone, Failure> {
                 }
                 if let Some(rec) = rec {
                     let l = rec.borrow();
+                    if matches!(op, WOp::Flush | WOp::IoFlush) && l.unflushed_words != 0 {
+                        fail = Some(Failure::new(
+                            format!("rec/flush_not_propagated/{}", tag),
+                            format!("after op #{} {:?}: flush returned Ok but the backend's flush was not called after its last {} word(s) on {}", i, op, l.unflushed_words, cfg.name()),
+                        ));
+                        return;
+                    }
                     let complete = m.len() / wb;
                     if l.words > complete {
                         fail = Some(Failure::new(format!("rec/early/{}", tag), format!("after op #{} {:?}: {} words delivered but only {} complete on {}", i, op, l.words, complete, cfg.name())));
@@ -378,6 +385,8 @@ pub struct RNotes {
     pub pos_while_multiword: bool,
     pub seek_back_after_table: bool,
     pub fill: usize,
+    /// bits consumed since the (possibly wrapping) reader was created: what a counting wrapper must report
+    pub consumed: usize,
 }
 
 impl RNotes {
@@ -433,7 +442,8 @@ pub fn run_reader(s: &RStream, ops: &[ROp]) -> Result<RNotes, Failure> {
     let tag = s.cfg.r.name();
     let r = guarded(|| {
         with_reader(s.cfg, &bytes, &mut |rd| {
-            let mut p = 0usize;
+            // the reader starts after the pre-wrap prefix
+            let mut p = s.cfg.pre as usize;
             res = exec_rops(s, rd, ops, &mut p, &mut notes, 0).map(|_| ());
         })
     });
@@ -454,18 +464,24 @@ pub fn exec_rops(s: &RStream, rd: &mut dyn DynR, ops: &[ROp], p: &mut usize, not
     let tag = s.cfg.r.name();
     let cfgname = s.cfg.name();
     let unbuf = s.cfg.r == RKind::Unbuf;
+    let mut last_p = *p;
     for (i, op) in ops.iter().enumerate() {
         // a counting wrapper must equal the model position after every operation
         if i > 0 {
+            // account for what the previous operation consumed (a seek consumes nothing)
+            if !matches!(ops[i - 1], ROp::Seek(_)) && *p >= last_p {
+                notes.consumed += *p - last_p;
+            }
             if let Some(cn) = rd.counter() {
-                if cn != *p {
+                if cn != notes.consumed {
                     return Err(Failure::new(
                         format!("count_r/{}", rop_name(&ops[i - 1])),
-                        format!("after op #{} {:?}: bits_read = {}, bits actually consumed = {} on {}", i - 1, ops[i - 1], cn, *p, cfgname),
+                        format!("after op #{} {:?}: bits_read = {}, bits actually consumed since the wrapper was created = {} on {}", i - 1, ops[i - 1], cn, notes.consumed, cfgname),
                     ));
                 }
             }
         }
+        last_p = *p;
         let name = rop_name(op);
         let sig = |what: &str| format!("{}/{}/{}", name, tag, what);
         let ctx = |what: String| format!("op #{} {:?} at bit {} of {} (depth {}): {} on {}", i, op, *p, l, depth, what, cfgname);
@@ -748,7 +764,7 @@ pub fn exec_rops(s: &RStream, rd: &mut dyn DynR, ops: &[ROp], p: &mut usize, not
             ROp::Fork(sub) => {
                 let mut sub_res: Result<Step, Failure> = Ok(Step::Continue);
                 let mut pc = *p;
-                let mut sub_notes = RNotes { fill: notes.fill, ..RNotes::default() };
+                let mut sub_notes = RNotes { fill: notes.fill, consumed: notes.consumed, ..RNotes::default() };
                 let could = rd.fork(&mut |c| {
                     sub_res = exec_rops(s, c, sub, &mut pc, &mut sub_notes, depth + 1);
                 });
@@ -804,12 +820,17 @@ pub fn exec_rops(s: &RStream, rd: &mut dyn DynR, ops: &[ROp], p: &mut usize, not
             }
         }
     }
-    if let (Some(cn), Some(last)) = (rd.counter(), ops.last()) {
-        if cn != *p {
-            return Err(Failure::new(
-                format!("count_r/{}", rop_name(last)),
-                format!("after the last op {:?}: bits_read = {}, bits actually consumed = {} on {}", last, cn, *p, cfgname),
-            ));
+    if let Some(last) = ops.last() {
+        if !matches!(last, ROp::Seek(_)) && *p >= last_p {
+            notes.consumed += *p - last_p;
+        }
+        if let Some(cn) = rd.counter() {
+            if cn != notes.consumed {
+                return Err(Failure::new(
+                    format!("count_r/{}", rop_name(last)),
+                    format!("after the last op {:?}: bits_read = {}, bits actually consumed since the wrapper was created = {} on {}", last, cn, notes.consumed, cfgname),
+                ));
+            }
         }
     }
     Ok(Step::Continue)
